@@ -45,7 +45,7 @@ contract(C + 'split_meta_tiles', props=['C04', 'C08'],
 
 
 # ---- TileManager._is_tile_missing / _load_tile_coords: every missing or stale tile goes to the creator ---------------------------
-cls(C + 'TileManager', fields=dict(grid='opaque', cache='opaque', sources='opaque', rescale_tiles='int', identifier='opaque',
+cls(C + 'TileManager', fields=dict(grid='opaque', cache='opaque', sources='list[opaque]', rescale_tiles='int', identifier='opaque',
                                    meta_grid='opaque', format='opaque', image_opts='opaque', request_format='opaque',
                                    minimize_meta_requests='opaque', concurrent_tile_creators='opaque', locker='opaque',
                                    _expire_timestamp='opaque', _refresh_before='opaque', pre_store_filter='opaque',
@@ -100,9 +100,42 @@ def _collect_missing(ex, st, k):
 
 def _creator_gets_missing(ex, st, post, result):
     import z3
+    from pyvc.values import VSeq
     cr = T.evs(st, 'create_tiles')
     goal = z3.BoolVal(len(cr) <= 1)
-    yield ('one_creation_call', goal, 'the creator is called at most once, with the collected list')
+    un = st.env.get('uncached_tiles')
+    if isinstance(un, VSeq):
+        # the creator runs exactly when something is missing, and it gets the collected list
+        goal = z3.And(goal, z3.BoolVal(len(cr) == 1) == (un.length() > 0))
+        for i, e in cr:
+            goal = z3.And(goal, z3.BoolVal(e.args[-1] is un))
+    else:
+        goal = z3.BoolVal(False)
+    yield ('one_creation_call', goal,
+           'the creator is called exactly when the to-create list is non-empty, once, with that list')
+    # the only way out without looking for missing tiles: no real source (cache-only) AND no rescaling configured
+    h = st.heap[post.env['self'].ref]
+    srcs = h['sources']
+    isin = [e for i, e in T.evs(st, 'isinstance')]
+    from pyvc.values import to_int
+    dummy = z3.BoolVal(False)
+    if isinstance(srcs, VSeq):
+        from pyvc.values import ObjSort
+        is_dummy = z3.Function('opaque_isinstance_mapproxy_source_DummySource', ObjSort, z3.BoolSort())
+        dummy = z3.And(srcs.length() == 1, is_dummy(srcs.elem(z3.IntVal(0)).t))
+        cache_only = z3.Or(srcs.length() == 0, dummy)
+        shortcut = z3.And(to_int(h['rescale_tiles']) == 0, cache_only)
+        early = isinstance(un, VSeq) and un.concrete and not un.items and not T.evs(st, '_is_tile_missing', 'TileManager._is_tile_missing')
+        # (on the early path nothing was examined; on every other path the loop over the tiles ran)
+        yield ('creation_skipped_only_without_sources', shortcut if early else z3.Not(shortcut),
+               'the tiles are returned as loaded, without testing them for missing/stale, exactly when there is no real source '
+               '(sources == [] or a single DummySource) and rescale_tiles == 0')
+    # the batch load from the cache comes first, with the caller's dimensions
+    ld = T.evs(st, 'load_tiles')
+    ok = len(ld) == 1 and (not cr or ld[0][0] < cr[0][0]) and ld[0][1].kwargs.get('dimensions') is post.env['dimensions'] \
+        and ld[0][1].args[-2 if len(ld[0][1].args) >= 2 else 0] is post.env['tiles']
+    yield ('cache_is_consulted_first', z3.BoolVal(bool(ok)),
+           'self.cache.load_tiles(tiles, with_metadata, dimensions=dimensions) is called once, before any creation')
 
 
 contract(C + 'TileManager._load_tile_coords', props=['C13', 'C08', 'C04'],
@@ -113,13 +146,76 @@ contract(C + 'TileManager._load_tile_coords', props=['C13', 'C08', 'C04'],
                       'create_tiles': {'returns': 'list[opaque]'}, '_scaled_tile': {'pure': True}, 'append': {'pure': True},
                       'isinstance': {'returns': 'bool', 'pure': True}},
          opaque=['_is_tile_missing', 'creator', '_scaled_tile'],
-         loops={0: dict(inv=[], types={}), 1: dict(inv=[], types={'uncached_tiles': 'opaque'}, body_trace=[_collect_missing]),
+         loops={0: dict(inv=[], types={}), 1: dict(inv=[], types={'uncached_tiles': 'list[opaque]'}, body_trace=[_collect_missing]),
                 2: dict(inv=[], types={})},
          trace=[_creator_gets_missing])
 
 
 # ---- bulk meta tiles: same protocol as _create_meta_tile, the tiles of the meta tile fetched one by one ------------------------
-from .c08_creator import OPAQUE_SPEC, OPAQUE_FIELDS, _lock_is_on_main_tile  # noqa
+from .c08_creator import OPAQUE_SPEC, OPAQUE_FIELDS, _lock_is_on_main_tile, recheck_decides  # noqa
+
+
+def _bulk_per_tile_query(ex, st, post, result):
+    """what the worker function asks upstream for ONE tile of the meta tile (executed on a generic element)"""
+    import z3
+    from pyvc.values import eq
+    applied = [e for e in st.trace if e.ghost.get('applied_by') == 'imap']
+    if not applied:
+        return
+    self_h = st.heap[post.env['self'].ref]
+    grid = st.heap[self_h['grid'].ref]
+    tb = [e for e in applied if e.name in ('tile_bbox', 'TileGrid.tile_bbox')]
+    mq = [e for e in applied if e.name == 'MapQuery']
+    qs = [e for e in applied if e.name == '_query_sources']
+    tl = [e for e in applied if e.name == 'Tile']
+    # (the applied events are the union over the worker's paths: several Tile / _query_sources events may be listed)
+    ok = len(tb) == 1 and len(mq) == 1 and len(qs) >= 1 and mq[0].args[0] is tb[0].result and all(q_.args[-1] is mq[0].result for q_ in qs)
+    goal = z3.BoolVal(bool(ok))
+    if ok:
+        goal = z3.And(goal, eq(mq[0].args[1], grid['tile_size']), eq(mq[0].args[2], grid['srs']))
+        for t in tl:
+            goal = z3.And(goal, eq(t.args[0], tb[0].args[-1]), z3.BoolVal('cacheable' in t.kwargs))
+    yield ('bulk_worker_queries_the_tile_rectangle', goal,
+           'for every tile of the meta tile the worker asks the sources for MapQuery(grid.tile_bbox(coord), grid.tile_size, '
+           'grid.srs, ..) and wraps the answer in Tile(coord, cacheable=answer.cacheable) - the same address')
+
+
+def _bulk_cached_path_loads(ex, st, post, result):
+    import z3
+    from pyvc.values import VSeq
+    if T.evs(st, 'imap'):
+        return
+    ld = [e for i, e in T.evs(st, 'load_tiles')]
+    ok = len(ld) == 1 and isinstance(ld[0].args[-1], VSeq) and result is ld[0].args[-1]
+    yield ('cached_meta_tile_is_loaded', z3.BoolVal(bool(ok)),
+           'when every tile is cached, cache.load_tiles([Tile(c) for c in meta_tile.tiles]) is called and that list returned')
+
+
+def _bulk_result_item(ex, st, k):
+    """one result object of the per-tile fetches: a failed fetch stops the pool and is re-raised, a fetched tile is collected"""
+    import z3
+    evs_ = _iter_events(st)
+    task = st.env['tile_task']
+    app = [e for e in evs_ if e.name == 'append']
+    sh = [e for e in evs_ if e.name == 'shutdown']
+    from pyvc.values import opaque_is_none
+    exc_none = opaque_is_none(ex.opaque_field(st, task, 'exception').t) if hasattr(ex.opaque_field(st, task, 'exception'), 't') else z3.BoolVal(False)
+    res = ex.opaque_field(st, task, 'result')
+    res_none = opaque_is_none(res.t) if hasattr(res, 't') else z3.BoolVal(False)
+    # this clause is only evaluated for iterations that complete normally: the item had no exception
+    goal = z3.And(exc_none, z3.BoolVal(not sh), z3.BoolVal(len(app) <= 1), res_none == z3.BoolVal(len(app) == 0))
+    for a in app:
+        goal = z3.And(goal, z3.BoolVal(hasattr(a.args[-1], 't') and hasattr(res, 't') and a.args[-1].t.eq(res.t)))
+    yield ('fetched_tile_is_collected', goal,
+           'an iteration continues normally only for an item without exception; its tile (if any) is appended to the result list')
+
+
+def _bulk_failure(ex, st, k, st_start, exc):
+    import z3
+    evs_ = _iter_events(st)
+    sh = [e for e in evs_ if e.name == 'shutdown']
+    yield ('failed_fetch_stops_pool_and_reraises', z3.BoolVal(len(sh) == 1),
+           'a failed per-tile fetch shuts the pool down (force) and its exception is re-raised: nothing is stored')
 
 
 def _bulk_store_cacheable_under_lock(ex, st, post, result):
@@ -142,18 +238,20 @@ def _bulk_store_cacheable_under_lock(ex, st, post, result):
 
 contract(C + 'TileCreator._create_bulk_meta_tile', props=['C08', 'C04'],
          types=dict(meta_tile='obj:mapproxy.grid:MetaTile'), returns='opaque',
-         default_callee='opaque', opaque_fields=OPAQUE_FIELDS, stable_fields=['cacheable', 'coord'],
-         opaque_spec=dict(OPAQUE_SPEC, Pool={'pure': True}, imap={'returns': 'list[opaque]'}, shutdown={},
+         default_callee='opaque', inline=['query_tile'], opaque=['tile_bbox'], opaque_fields=OPAQUE_FIELDS, stable_fields=['cacheable', 'coord'],
+         opaque_spec=dict(OPAQUE_SPEC, Pool={'pure': True}, imap={'returns': 'list[opaque]', 'applies': (0, 1)}, shutdown={},
+                          as_buffer={'pure': True},
                           reraise={'always_raises': 'Exception'}),
          raises={'SourceError': True, 'Exception': True},
-         loops={0: dict(inv=[], types={'tiles': 'list[opaque]'})},
+         loops={0: dict(inv=[], types={'tiles': 'list[opaque]'}, body_trace=[_bulk_result_item], raise_trace=[_bulk_failure])},
          trace=[
              T.only_under_lock('imap', text='C08(iii): the upstream fetches are started only while the meta tile lock is held'),
              T.preceded_by('imap', 'is_cached', under_same_lock=True, quantified=True,
                            text='C08(iii): fetched only after a cache re-check of ALL tiles of the meta tile under the same lock'),
              T.at_most_once('imap', text='C08(iv): every tile of the meta tile is fetched at most once per invocation'),
              T.only_under_lock('store_tiles', text='C08: tiles are stored while the lock is held'),
-             _lock_is_on_main_tile, _bulk_store_cacheable_under_lock,
+             _lock_is_on_main_tile, _bulk_store_cacheable_under_lock, _bulk_per_tile_query, _bulk_cached_path_loads,
+             recheck_decides('imap'),
              T.no_event_after('imap', ['load_tiles'], text='fetch path does not fall back to a cache load'),
          ])
 
@@ -206,6 +304,23 @@ def _dispatch(ex, st, post, result):
                           z3.ForAll([i], z3.Implies(z3.And(0 <= i, i < tiles.length()), eq(arg.elem(i), ci))))
         else:
             goal = z3.BoolVal(False)
+    # which strategy: tile by tile only without a meta grid; the request-minimising meta tile only if configured and for more
+    # than one tile; nothing at all without sources
+    h = st.heap[post.env['self'].ref]
+    has_meta = ex.truth(st, h['meta_grid'])
+    has_src = ex.truth(st, h['sources'])
+    mini_cfg = ex.truth(st, ex.opaque_field(st, h['tile_mgr'], 'minimize_meta_requests'))
+    many = post.env['tiles'].length() > 1
+    if n == 0:
+        goal = z3.And(goal, z3.Not(has_src))
+    else:
+        goal = z3.And(goal, has_src)
+    if singles:
+        goal = z3.And(goal, z3.Not(has_meta))
+    if one:
+        goal = z3.And(goal, has_meta, mini_cfg, many)
+    if metas:
+        goal = z3.And(goal, has_meta, z3.Not(z3.And(mini_cfg, many)))
     yield ('one_creation_strategy', goal,
            'exactly one strategy handles the whole request: single tiles (all of them), the work list of distinct meta tiles, '
            'or the one request-minimising meta tile computed from all requested coordinates')
@@ -213,7 +328,8 @@ def _dispatch(ex, st, post, result):
 
 contract(C + 'TileCreator.create_tiles', props=['C04', 'C08'],
          types=dict(tiles='list[opaque]'), returns='opaque', default_callee='opaque',
-         opaque_fields={'coord': 'opt[tuple[int,int,int]]', 'bbox': 'opaque'}, stable_fields=['coord', 'bbox'],
+         opaque_fields={'coord': 'opt[tuple[int,int,int]]', 'bbox': 'opaque', 'minimize_meta_requests': 'opaque'},
+         stable_fields=['coord', 'bbox', 'minimize_meta_requests'],
          opaque_spec={'meta_tile': {'pure': True}, 'minimal_meta_tile': {'pure': True}, '_create_single_tiles': {}, '_create_meta_tiles': {},
                       '_create_meta_tile': {}, 'append': {'pure': True}, 'add': {'pure': True}, 'set': {'pure': True}},
          opaque=['_create_single_tiles', '_create_meta_tiles', '_create_meta_tile'],
